@@ -155,3 +155,28 @@ async fn f_c09_b_write_error_returns() {
     assert!(r.unwrap().is_err());
     assert!(s.is_closed());
 }
+
+/// F-C09-c  session_recv.recv_loop.every_error_exit_left_the_session_closed
+/// history: a frame handler fails (here: the server cannot encode its >65535-byte padding scheme for the
+/// UpdatePaddingScheme reply); recv_loop returns Err and must not leave the session open without a receive loop
+#[tokio::test]
+async fn f_c09_c_frame_handler_failure_closes_session() {
+    let mut scheme = String::from("stop=8\n");
+    for i in 0..8000 { scheme.push_str(&format!("{}=100-200,c,300-400\n", i)); }
+    assert!(scheme.len() > 65535);
+    let pf = Arc::new(PaddingFactory::new(scheme.as_bytes()).unwrap());
+    let (a, b) = tokio::io::duplex(1 << 20);
+    let (ar, aw) = tokio::io::split(a);
+    let (_br, mut bw) = tokio::io::split(b);
+    let s = Arc::new(Session::new_server(ar, aw, pf));
+    let s2 = s.clone();
+    let h = tokio::spawn(async move { s2.recv_loop().await });
+    let mut c = FrameCodec;
+    let mut out = BytesMut::new();
+    c.encode(Frame::with_data(Command::Settings, 0, Bytes::from_static(b"v=2\npadding-md5=00000000000000000000000000000000")), &mut out).unwrap();
+    bw.write_all(&out).await.unwrap();
+    bw.flush().await.unwrap();
+    let r = tokio::time::timeout(Duration::from_secs(2), h).await.expect("recv_loop did not end").unwrap();
+    assert!(r.is_err(), "the handler was expected to fail");
+    assert!(s.is_closed(), "recv_loop ended with an error but left the session open (no receive loop, nobody is told)");
+}
